@@ -8,7 +8,9 @@ use rand::Rng;
 use std::collections::BTreeMap;
 
 pub const DIRS: [&str; 4] = ["", "sub", "sub/deep", "other"];
-pub const STATIC: [(&str, &str); 7] = [
+pub const STATIC: [(&str, &str); 9] = [
+    ("inc_mix_lf_first.txt", "a\nb\r\nc"),
+    ("inc_mix_crlf_first.txt", "a\r\nb\nc\n"),
     ("inc_nl.txt", "alpha\nbeta\n"),
     ("inc_nonl.txt", "gamma"),
     ("inc_crlf.txt", "c1\r\nc2\r\n"),
@@ -37,11 +39,14 @@ pub struct GenOpts {
     pub dotted_middle_shape: bool,
     /// generate `run` directives
     pub commands: bool,
+    /// output path of the source being generated (set per source by `gen_project`): lets inert
+    /// argument text mention the file itself
+    pub self_out: Option<String>,
 }
 
 impl Default for GenOpts {
     fn default() -> Self {
-        Self { error_pct: 6, max_sources: 3, max_items: 10, dotted_middle_shape: true, commands: true }
+        Self { error_pct: 6, max_sources: 3, max_items: 10, dotted_middle_shape: true, commands: true, self_out: None }
     }
 }
 
@@ -99,7 +104,9 @@ pub fn gen_project(r: &mut StdRng, o: &GenOpts) -> Project {
         let (p, _) = srcs[i].clone();
         let dir = model::dir_of(&p).to_string();
         let deps: Vec<String> = srcs[i + 1..].iter().map(|s| s.1.clone()).collect();
-        let body = gen_source(r, o, &dir, &deps, i > 0, i);
+        let mut o2 = o.clone();
+        o2.self_out = Some(srcs[i].1.rsplit('/').next().unwrap().to_string());
+        let body = gen_source(r, &o2, &dir, &deps, i > 0, i);
         files.insert(p, body.into_bytes());
     }
     Project { files, trailing: r.gen_bool(0.6) }
@@ -260,7 +267,7 @@ pub fn gen_source(r: &mut StdRng, o: &GenOpts, dir: &str, deps: &[String], is_de
                                 ls.push("".into());
                             }
                         }
-                        1 => ls.push(head("include", ["inc_nl.txt", "inc_nonl.txt", "inc_crlf.txt"][r.gen_range(0..3)])),
+                        1 => ls.push(head("include", ["inc_nl.txt", "inc_nonl.txt", "inc_crlf.txt", "inc_mix_lf_first.txt", "inc_mix_crlf_first.txt", "inc_mixed.txt"][r.gen_range(0..6)])),
                         _ => {
                             ls.push(head("write", "w1"));
                             if r.gen_bool(0.5) {
@@ -282,7 +289,9 @@ pub fn gen_source(r: &mut StdRng, o: &GenOpts, dir: &str, deps: &[String], is_de
                 ls.push(head("write", ["w one", "TXTPP#run echo escaped", "", "TAG1 stays", "  lead is trimmed"][r.gen_range(0..5)]));
                 let nb = r.gen_range(0..3);
                 for _ in 0..nb {
-                    let b = ["second", "", "-TXTPP#include inc_nl.txt", "  keep lead", "-TXTPP#temp inc_nl.txt", "TXTPP#temp ../inc_nonl.txt"][r.gen_range(0..6)];
+                    let own_inc = format!("-TXTPP#include {}", o.self_out.clone().unwrap_or_else(|| "inc_nl.txt".into()));
+                    let own_after = format!("TXTPP#after {}", o.self_out.clone().unwrap_or_else(|| "inc_nl.txt".into()));
+                    let b = ["second", "", "-TXTPP#include inc_nl.txt", "  keep lead", "-TXTPP#temp inc_nl.txt", "TXTPP#temp ../inc_nonl.txt", own_inc.as_str(), own_after.as_str()][r.gen_range(0..8)];
                     ls.push(cont(r, b));
                 }
             }
